@@ -858,12 +858,23 @@ class SymEval:
         if isinstance(e, (ast.ListComp, ast.SetComp, ast.GeneratorExp, ast.DictComp)):
             # evaluate the source iterables for their effects; the value is opaque
             inner = st.copy()
+            lid = f"{self._lid_prefix}C{e.lineno}"
+            conds, it = [], TOP
             for g in e.generators:
                 it = self.expr(g.iter, inner)
                 for n in ast.walk(g.target):
                     if isinstance(n, ast.Name):
-                        inner.env[n.id] = ("elem", it, f"{self._lid_prefix}C{e.lineno}")
-            lid = f"{self._lid_prefix}C{e.lineno}"
+                        inner.env[n.id] = ("elem", it, lid)
+            self._loops.append(lid)
+            for g in e.generators:
+                for cnd in g.ifs:  # the filter conditions guard the element expression
+                    c = self.cond(self.expr(cnd, inner))
+                    conds.append(c)
+                    if self.truth(c) is None:
+                        inner.assume(c, True)
+            self._loops.pop()
+            if len(e.generators) == 1:
+                self.loop_info[lid] = {"node": e, "assigned": set(), "fields": set(), "unrolled": None, "iter": it, "pre": {}, "body_end": {}, "comp": True, "conds": conds}
             self._loops.append(lid)
             if isinstance(e, ast.DictComp):
                 body = (self.expr(e.key, inner), self.expr(e.value, inner))
